@@ -1,148 +1,453 @@
-//! C09 — Signer, writable, address, program, sysvar and owner checks are exact.
+//! C09 — Signer, writable, address, program, sysvar and owner checks are exact; arbitrary nestings
+//! accept iff every layer accepts.
 //!
-//! Op lines:
-//!   `val <nest> <present> <signer> <writable> <key-hex> <owner-hex>` → `ok` | `err:<Class>`
-//!       nest = layers outer→inner joined by `,`, the last one being the base:
-//!       layers: `opt` `signer` `mut` `nsigner` (MaybeSigner<false>) `nmut` (MaybeMut<false>) `addr:<hex32>`
-//!               `advw` / `advs`: a user single-account set that ADVERTISES writable / signer in its
-//!               meta (like `Init` does) but checks nothing itself (pass-through for validation)
-//!       bases : `info` `sysacct` `program:<hex32>` `sysvar:<hex32>`
-//!   `eq <a-hex32> <b-hex32>` → `1` | `0`   (the framework's fast 32-byte comparison)
-use crate::progs::HxProgram;
+//! Op lines (the Lean side is `lean/Account/Account/Driver/C09.lean`; grammar in `spec.rs`):
+//!   `nest <progid:hex32> <set> <acct>*`  decode + validate the account set over the accounts -> `ok` | `err:<Class>` | `panic`
+//!        acct = `<key>:<owner>:<signer 0|1>:<writable 0|1>:<data hex>`
+//!   `meta <chain>`                       the chain's advertised `SingleSetMeta`              -> `<signer><writable>`
+//!   `eq <a:hex32> <b:hex32>`             the framework's fast 32-byte comparison            -> `1` | `0`
+//!
+//! Every nest string corresponds to a REAL Rust type: `build.rs` generates the types (and the derived
+//! structs they need) for `nests.txt` and for ≈50 random nests of the grammar; the `Init` / `Seeded`
+//! nests (special validate arguments) are written by hand below.
+use crate::{
+    progs::*,
+    spec::{self, Set, B, L},
+};
 use hx_common::{hex, unhex, Args, Recorder, Rng};
-use hx_native::{key_from, res_class, AcctSpec, World};
+use hx_native::{err_class, key_from, AcctSpec, World};
 use star_frame::{
     account_set::{
-        modifiers::{MaybeMut, MaybeSigner},
+        modifiers::{CreateIfNeeded, Init, Seeded, Seeds},
         AccountSetDecode, AccountSetValidate,
     },
+    pinocchio::sysvars::rent::Rent,
     prelude::*,
     util::fast_32_byte_eq,
 };
 
-static PROGRAM_ID: Pubkey = Pubkey::new_from_array([7u8; 32]);
+pub static PROGRAM_ID: Pubkey = HxProgram::ID;
 pub const ADDR_A: Pubkey = Pubkey::new_from_array([
     0xA0, 1, 2, 3, 4, 5, 6, 7, 8, 9, 10, 11, 12, 13, 14, 15, 16, 17, 18, 19, 20, 21, 22, 23, 24, 25, 26, 27, 28, 29, 30, 0xAF,
 ]);
-
-#[derive(AccountSet, Debug)]
-pub struct AddrInfo {
-    #[validate(address = &ADDR_A)]
-    a: AccountInfo,
-}
-#[derive(AccountSet, Debug)]
-pub struct AddrSignerMut {
-    #[validate(address = &ADDR_A)]
-    a: Signer<Mut<AccountInfo>>,
-}
-#[derive(AccountSet, Debug)]
-pub struct AddrMutSys {
-    #[validate(address = &ADDR_A)]
-    a: Mut<SystemAccount>,
-}
-#[derive(AccountSet, Debug)]
-pub struct AddrOptSigner {
-    #[validate(address = &ADDR_A)]
-    a: Signer<AccountInfo>,
-}
+pub const ADDR_B: Pubkey = Pubkey::new_from_array([
+    0xB0, 31, 30, 29, 28, 27, 26, 25, 24, 23, 22, 21, 20, 19, 18, 17, 16, 15, 14, 13, 12, 11, 10, 9, 8, 7, 6, 5, 4, 3, 2, 0xBF,
+]);
 
 /// Advertises `writable` in its `SingleSetMeta` without checking the flag (as `Init<T>` does).
-#[derive(AccountSet, Debug, Clone, Copy)]
+#[derive(AccountSet, Debug, Clone)]
 #[repr(transparent)]
 pub struct AdvW<T>(#[single_account_set(writable)] T);
 /// Advertises `signer` in its `SingleSetMeta` without checking the flag.
-#[derive(AccountSet, Debug, Clone, Copy)]
+#[derive(AccountSet, Debug, Clone)]
 #[repr(transparent)]
 pub struct AdvS<T>(#[single_account_set(signer)] T);
+/// A single-account wrapper with an address check on its field (what `Sysvar<T>` is made of).
+#[derive(AccountSet, Debug, Clone)]
+#[repr(transparent)]
+pub struct AddrA<T>(
+    #[single_account_set]
+    #[validate(address = &ADDR_A)]
+    T,
+);
+#[derive(AccountSet, Debug, Clone)]
+#[repr(transparent)]
+pub struct AddrB<T>(
+    #[single_account_set]
+    #[validate(address = &ADDR_B)]
+    T,
+);
 
-type Runner = fn(&[AccountInfo]) -> String;
+pub type Runner = fn(&[AccountInfo]) -> String;
+pub type MetaFn = fn() -> String;
 
-fn run_nest<T>(accounts: &[AccountInfo]) -> String
+pub fn meta_of<T: SingleAccountSet>() -> String {
+    let m = T::meta();
+    format!("{}{}", m.signer as u8, m.writable as u8)
+}
+
+/// The sentinel the CPI stand-in answers with: `Init` reached the account creation.
+const CREATE_ATTEMPTED: u32 = 0xC0DE;
+
+fn classify(e: star_frame::errors::Error) -> String {
+    let c = err_class(e);
+    if c == format!("err:Custom{CREATE_ATTEMPTED}") {
+        "err:CreateAttempted".into()
+    } else {
+        c
+    }
+}
+
+thread_local! {
+    static FUNDER_WORLD: World = World::new(&[AcctSpec::new(key_from(0xF00D), Pubkey::new_from_array([0; 32])).signer(true).writable(true).lamports(1_000_000_000_000)]);
+}
+
+fn install_hooks() {
+    #[allow(deprecated)]
+    star_frame::verif_hooks::RENT.set(Some(Rent { lamports_per_byte_year: 3480, exemption_threshold: 2.0, burn_percent: 50 }));
+    star_frame::verif_hooks::CPI_HANDLER.with_borrow_mut(|h| {
+        // every CPI these nests can issue is the account creation of `Init`: outside this property
+        *h = Some(Box::new(|_rec| Some(Err(ProgramError::Custom(CREATE_ATTEMPTED).into()))));
+    });
+}
+
+pub fn run_with<T, V>(accounts: &[AccountInfo], varg: V, funder: bool) -> String
+where
+    T: for<'a> AccountSetDecode<'a, ()> + AccountSetValidate<V>,
+{
+    let r = hx_common::catch(|| {
+        let mut ctx = Context::new(&PROGRAM_ID);
+        if funder {
+            FUNDER_WORLD.with(|w| {
+                let mut a = w.infos();
+                let f = <Signer<Mut<SystemAccount>> as AccountSetDecode<'_, ()>>::decode_accounts(&mut a, (), &mut Context::default()).unwrap();
+                ctx.set_funder(Box::new(f));
+            });
+        }
+        let mut accs = accounts;
+        let mut set = match T::decode_accounts(&mut accs, (), &mut ctx) {
+            Ok(s) => s,
+            Err(e) => return classify(e),
+        };
+        match set.validate_accounts(varg, &mut ctx) {
+            Ok(()) => "ok".to_string(),
+            Err(e) => classify(e),
+        }
+    });
+    r.unwrap_or_else(|_| "panic".to_string())
+}
+
+pub fn run_nest<T>(accounts: &[AccountInfo]) -> String
 where
     T: for<'a> AccountSetDecode<'a, ()> + AccountSetValidate<()>,
 {
-    let mut ctx = Context::new(&PROGRAM_ID);
-    let mut accs = accounts;
-    let mut set = match T::decode_accounts(&mut accs, (), &mut ctx) {
-        Ok(s) => s,
-        Err(_) => return "err:MissingAccount".to_string(),
-    };
-    res_class(set.validate_accounts((), &mut ctx))
+    run_with::<T, ()>(accounts, (), true)
 }
 
-fn k(p: &Pubkey) -> String {
-    hex(p.as_ref())
+mod generated {
+    include!(concat!(env!("OUT_DIR"), "/gen_nests.rs"));
 }
 
-/// (layer string, runner). The layer string is what the model interprets.
-fn nests() -> Vec<(String, Runner)> {
-    let sys = k(&System::ID);
-    let hxp = k(&HxProgram::ID);
-    let rent = k(&<star_frame::pinocchio::sysvars::rent::Rent as star_frame::account_set::sysvar::SysvarId>::id());
-    let ixs = k(&<star_frame::account_set::sysvar::InstructionsSysvar as star_frame::account_set::sysvar::SysvarId>::id());
-    let a = k(&ADDR_A);
-    macro_rules! n {
+fn s1() -> HxSeeds {
+    HxSeeds { n: 1 }
+}
+
+/// The `Init` (validated with `CreateIfNeeded(())`) and `Seeded` (validated with `Seeds(..)`) nests.
+fn hand_nests() -> Vec<(&'static str, Runner, Option<MetaFn>, bool)> {
+    macro_rules! init {
         ($s:expr, $t:ty) => {
-            ($s.to_string(), run_nest::<$t> as Runner)
+            ($s, (|a| run_with::<$t, _>(a, CreateIfNeeded(()), true)) as Runner, None, false)
         };
     }
+    macro_rules! seeded {
+        ($s:expr, $t:ty) => {
+            ($s, (|a| run_with::<$t, _>(a, Seeds(s1()), true)) as Runner, None, false)
+        };
+    }
+    type I8 = Init<Signer<Account<Zc8>>>;
     vec![
-        n!("info", AccountInfo),
-        n!("signer,info", Signer<AccountInfo>),
-        n!("mut,info", Mut<AccountInfo>),
-        n!("signer,mut,info", Signer<Mut<AccountInfo>>),
-        n!("mut,signer,info", Mut<Signer<AccountInfo>>),
-        n!("sysacct", SystemAccount),
-        n!("signer,sysacct", Signer<SystemAccount>),
-        n!("mut,sysacct", Mut<SystemAccount>),
-        n!("signer,mut,sysacct", Signer<Mut<SystemAccount>>),
-        n!("mut,signer,sysacct", Mut<Signer<SystemAccount>>),
-        n!(format!("program:{sys}"), Program<System>),
-        n!(format!("program:{hxp}"), Program<HxProgram>),
-        n!(format!("signer,program:{sys}"), Signer<Program<System>>),
-        n!(format!("mut,signer,program:{hxp}"), Mut<Signer<Program<HxProgram>>>),
-        n!(format!("sysvar:{rent}"), Sysvar<star_frame::pinocchio::sysvars::rent::Rent>),
-        n!(format!("mut,sysvar:{ixs}"), Mut<Sysvar<star_frame::account_set::sysvar::InstructionsSysvar>>),
-        n!(format!("signer,mut,sysvar:{rent}"), Signer<Mut<Sysvar<star_frame::pinocchio::sysvars::rent::Rent>>>),
-        n!("nsigner,info", MaybeSigner<false, AccountInfo>),
-        n!("nmut,info", MaybeMut<false, AccountInfo>),
-        n!("nsigner,mut,sysacct", MaybeSigner<false, Mut<SystemAccount>>),
-        n!("nmut,signer,info", MaybeMut<false, Signer<AccountInfo>>),
-        n!("nsigner,nmut,info", MaybeSigner<false, MaybeMut<false, AccountInfo>>),
-        n!("signer,nmut,mut,sysacct", Signer<MaybeMut<false, Mut<SystemAccount>>>),
-        n!("mut,nsigner,signer,info", Mut<MaybeSigner<false, Signer<AccountInfo>>>),
-        n!("mut,advw,info", Mut<AdvW<AccountInfo>>),
-        n!("signer,advs,info", Signer<AdvS<AccountInfo>>),
-        n!("mut,advw,signer,sysacct", Mut<AdvW<Signer<SystemAccount>>>),
-        n!("signer,mut,advs,advw,info", Signer<Mut<AdvS<AdvW<AccountInfo>>>>),
-        n!("advw,mut,info", AdvW<Mut<AccountInfo>>),
-        n!("opt,mut,advw,signer,info", Option<Mut<AdvW<Signer<AccountInfo>>>>),
-        n!("opt,info", Option<AccountInfo>),
-        n!("opt,signer,info", Option<Signer<AccountInfo>>),
-        n!("opt,mut,info", Option<Mut<AccountInfo>>),
-        n!("opt,signer,mut,sysacct", Option<Signer<Mut<SystemAccount>>>),
-        n!("opt,mut,signer,sysacct", Option<Mut<Signer<SystemAccount>>>),
-        n!(format!("opt,program:{sys}"), Option<Program<System>>),
-        n!(format!("opt,signer,sysvar:{rent}"), Option<Signer<Sysvar<star_frame::pinocchio::sysvars::rent::Rent>>>),
-        n!(format!("opt,mut,signer,program:{hxp}"), Option<Mut<Signer<Program<HxProgram>>>>),
-        n!(format!("addr:{a},info"), AddrInfo),
-        n!(format!("addr:{a},signer,mut,info"), AddrSignerMut),
-        n!(format!("addr:{a},mut,sysacct"), AddrMutSys),
-        n!(format!("opt,addr:{a},signer,info"), Option<AddrOptSigner>),
-        n!(format!("opt,addr:{a},signer,mut,info"), Option<AddrSignerMut>),
+        ("init,signer,acct:zc8", (|a| run_with::<I8, _>(a, CreateIfNeeded(()), true)) as Runner, Some(meta_of::<I8> as MetaFn), false),
+        ("initnf,signer,acct:zc8", (|a| run_with::<I8, _>(a, CreateIfNeeded(()), false)) as Runner, None, false),
+        ("init,signer,mut,acct:zc8", (|a| run_with::<Init<Signer<Mut<Account<Zc8>>>>, _>(a, CreateIfNeeded(()), true)) as Runner, Some(meta_of::<Init<Signer<Mut<Account<Zc8>>>>> as MetaFn), false),
+        init!("init,signer,box,acct:zc2", Init<Signer<Box<Account<Zc2>>>>),
+        init!("init,box,signer,borsh:fix8", Init<Box<Signer<BorshAccount<Fix8>>>>),
+        ("box,init,signer,acct:zc8", (|a| run_with::<Box<I8>, _>(a, CreateIfNeeded(()), true)) as Runner, Some(meta_of::<Box<I8>> as MetaFn), false),
+        ("mut,init,signer,acct:zc8", (|a| run_with::<Mut<I8>, _>(a, CreateIfNeeded(()), true)) as Runner, Some(meta_of::<Mut<I8>> as MetaFn), false),
+        init!("signer,init,signer,borsh:fix2", Signer<Init<Signer<BorshAccount<Fix2>>>>),
+        init!("opt(init,signer,acct:zc8)", Option<I8>),
+        init!("box(opt(mut,init,signer,acct:zc8))", Box<Option<Mut<I8>>>),
+        seeded!("seeded:S1,acct:zc8", Seeded<Account<Zc8>, HxSeeds>),
+        seeded!("seeded:S1,signer,mut,info", Seeded<Signer<Mut<AccountInfo>>, HxSeeds>),
+        seeded!("mut,seeded:S1,sysacct", Mut<Seeded<SystemAccount, HxSeeds>>),
+        seeded!("box,seeded:S1,box,acct:zc8", Box<Seeded<Box<Account<Zc8>>, HxSeeds>>),
+        seeded!("opt(seeded:S1,mut,info)", Option<Seeded<Mut<AccountInfo>, HxSeeds>>),
+        ("init,seeded:S1,acct:zc8", (|a| run_with::<Init<Seeded<Account<Zc8>, HxSeeds>>, _>(a, (CreateIfNeeded(()), Seeds(s1())), true)) as Runner, None, false),
+        ("init,seeded:S1,box,borsh:fix8", (|a| run_with::<Init<Seeded<Box<BorshAccount<Fix8>>, HxSeeds>>, _>(a, (CreateIfNeeded(()), Seeds(s1())), true)) as Runner, None, false),
     ]
 }
 
-/// The key a nest expects (if any), used to aim the generator at near misses.
-fn expected_key(nest: &str) -> Option<[u8; 32]> {
-    for l in nest.split(',') {
-        for p in ["program:", "sysvar:", "addr:"] {
-            if let Some(h) = l.strip_prefix(p) {
-                return unhex(h).and_then(|v| v.try_into().ok());
+/// The real constants behind the symbols of the nest strings.
+fn sym(kind: &str, name: &str) -> String {
+    match (kind, name) {
+        ("key", "A") => hex(ADDR_A.as_ref()),
+        ("key", "B") => hex(ADDR_B.as_ref()),
+        ("program", "system") => hex(System::ID.as_ref()),
+        ("program", "hx") => hex(HxProgram::ID.as_ref()),
+        ("program", "p2") => hex(<P2 as StarFrameProgram>::ID.as_ref()),
+        ("sysvar", "rent") => hex(<Rent as star_frame::account_set::sysvar::SysvarId>::id().as_ref()),
+        ("sysvar", "ixs") => hex(<star_frame::account_set::sysvar::InstructionsSysvar as star_frame::account_set::sysvar::SysvarId>::id().as_ref()),
+        ("sysvar", "slothashes") => hex(<star_frame::account_set::sysvar::SlotHashesSysvar as star_frame::account_set::sysvar::SysvarId>::id().as_ref()),
+        ("type", t) => {
+            let (p, d, _) = type_info(t);
+            format!("{}:{}", hex(&p), hex(&d))
+        }
+        ("pda", "S1") => hex(Pubkey::find_program_address(&s1().seeds(), &PROGRAM_ID).0.as_ref()),
+        (k, n) => panic!("unknown symbol {k}:{n}"),
+    }
+}
+fn sym_key(kind: &str, name: &str) -> [u8; 32] {
+    unhex(&sym(kind, name)).unwrap().try_into().unwrap()
+}
+
+pub struct Nest {
+    pub spec: Set,
+    pub rendered: String,
+    pub run: Runner,
+    pub meta: Option<MetaFn>,
+    pub random: bool,
+}
+
+pub fn nests() -> Vec<Nest> {
+    generated::generated_nests()
+        .into_iter()
+        .chain(hand_nests())
+        .map(|(s, run, meta, random)| {
+            let spec = spec::parse(s).unwrap_or_else(|| panic!("cannot parse nest {s}"));
+            Nest { rendered: spec.render(&sym), spec, run, meta, random }
+        })
+        .collect()
+}
+
+// ---------------------------------------------------------------- accounts
+#[derive(Clone, Debug, PartialEq)]
+pub struct Acc {
+    key: [u8; 32],
+    owner: [u8; 32],
+    signer: bool,
+    writable: bool,
+    data: Vec<u8>,
+}
+impl Acc {
+    fn tok(&self) -> String {
+        format!("{}:{}:{}:{}:{}", hex(&self.key), hex(&self.owner), self.signer as u8, self.writable as u8, hex(&self.data))
+    }
+    fn parse(s: &str) -> Option<Acc> {
+        let p: Vec<&str> = s.split(':').collect();
+        let [k, o, sg, w, d] = p.as_slice() else { return None };
+        let bit = |x: &str| match x {
+            "1" => Some(true),
+            "0" => Some(false),
+            _ => None,
+        };
+        let strict = |x: &str| if x == "-" || x.chars().all(|c| c.is_ascii_hexdigit()) { unhex(x) } else { None };
+        Some(Acc { key: strict(k)?.try_into().ok()?, owner: strict(o)?.try_into().ok()?, signer: bit(sg)?, writable: bit(w)?, data: strict(d)? })
+    }
+}
+
+/// Accounts that satisfy every layer of the nest (options present, `Rest` with `rest_n` elements).
+fn good(set: &Set, forced: Option<[u8; 32]>, rest_n: usize, rng: &mut Rng, out: &mut Vec<Acc>) {
+    match set {
+        Set::Chain(ls, b) => {
+            let mut key = forced;
+            for l in ls {
+                match l {
+                    L::Addr(k) => key = key.or(Some(sym_key("key", k))),
+                    L::Seeded(k) => key = key.or(Some(sym_key("pda", k))),
+                    _ => {}
+                }
+            }
+            let (mut owner, mut data) = (key_from(rng.next() | 1).to_bytes(), vec![]);
+            match b {
+                B::Program(p) => key = key.or(Some(sym_key("program", p))),
+                B::Sysvar(s) => key = key.or(Some(sym_key("sysvar", s))),
+                B::SysAcct => owner = [0; 32],
+                B::Acct(t) | B::Borsh(t) => {
+                    let (p, d, body) = type_info(t);
+                    owner = p;
+                    data = d;
+                    data.extend((0..body).map(|i| 0xA0 + i as u8));
+                }
+                B::Info => {}
+            }
+            out.push(Acc { key: key.unwrap_or_else(|| key_from(rng.next()).to_bytes()), owner, signer: true, writable: true, data });
+        }
+        Set::Opt(s) | Set::BoxS(s) => good(s, forced, rest_n, rng, out),
+        Set::Addr(k, s) => good(s, Some(sym_key("key", k)), rest_n, rng, out),
+        Set::Arr(n, s) | Set::Vecn(n, s) => (0..*n).for_each(|_| good(s, None, rest_n, rng, out)),
+        Set::Rest(s) => (0..rest_n).for_each(|_| good(s, None, rest_n, rng, out)),
+        Set::St(fs) => fs.iter().for_each(|f| good(f, None, rest_n, rng, out)),
+    }
+}
+
+// ---------------------------------------------------------------- independent oracle (plain Rust)
+enum D {
+    One(Vec<L>, B, Acc),
+    Absent,
+    Wrap(Box<D>),
+    Addr([u8; 32], Box<D>),
+    Seq(Vec<D>),
+}
+
+fn dec(set: &Set, accs: &mut &[Acc]) -> Option<D> {
+    Some(match set {
+        Set::Chain(ls, b) => {
+            let (a, rest) = accs.split_first()?;
+            *accs = rest;
+            if let B::Borsh(t) = b {
+                // the body is deserialized while decoding: present bodies must be exactly the type's 3 bytes
+                let (_, d, body) = type_info(t);
+                if a.data.len() > d.len() && a.data.len() != d.len() + body {
+                    return None;
+                }
+            }
+            D::One(ls.clone(), b.clone(), a.clone())
+        }
+        Set::Opt(s) => match accs.first() {
+            None => D::Absent,
+            Some(a) if a.key == PROGRAM_ID.to_bytes() => {
+                *accs = &accs[1..];
+                D::Absent
+            }
+            Some(_) => D::Wrap(Box::new(dec(s, accs)?)),
+        },
+        Set::BoxS(s) => D::Wrap(Box::new(dec(s, accs)?)),
+        Set::Addr(k, s) => D::Addr(sym_key("key", k), Box::new(dec(s, accs)?)),
+        Set::Arr(n, s) | Set::Vecn(n, s) => D::Seq((0..*n).map(|_| dec(s, accs)).collect::<Option<Vec<_>>>()?),
+        Set::Rest(s) => {
+            let mut v = vec![];
+            while !accs.is_empty() {
+                v.push(dec(s, accs)?);
+            }
+            D::Seq(v)
+        }
+        Set::St(fs) => D::Seq(fs.iter().map(|f| dec(f, accs)).collect::<Option<Vec<_>>>()?),
+    })
+}
+
+fn admitted(t: &str, a: &Acc) -> bool {
+    let (p, d, _) = type_info(t);
+    a.owner == p && a.data.len() >= d.len() && a.data[..d.len()] == d[..]
+}
+
+fn all_ok(d: &D) -> bool {
+    match d {
+        D::Absent => true,
+        D::Wrap(d) => all_ok(d),
+        D::Addr(k, d) => key_ok(k, d) && all_ok(d),
+        D::Seq(ds) => ds.iter().all(all_ok),
+        D::One(ls, b, a) => {
+            let base = match b {
+                B::Info => true,
+                B::SysAcct => a.owner == [0; 32],
+                B::Program(p) => a.key == sym_key("program", p),
+                B::Sysvar(s) => a.key == sym_key("sysvar", s),
+                B::Acct(t) | B::Borsh(t) => admitted(t, a),
+            };
+            base && ls.iter().all(|l| match l {
+                L::Signer => a.signer,
+                L::Mut => a.writable,
+                L::Addr(k) => a.key == sym_key("key", k),
+                L::Seeded(k) => a.key == sym_key("pda", k),
+                L::InitNf => false,
+                // an account that already is what `Init` would create is left alone; anything that would need
+                // creating (System-owned / zeroed discriminant) is outside this property: never "accepted as is"
+                L::Init => match b {
+                    B::Acct(t) | B::Borsh(t) => {
+                        let w = type_info(t).1.len();
+                        a.owner != [0; 32] && a.data.len() >= w && !a.data[..w].iter().all(|x| *x == 0)
+                    }
+                    _ => true,
+                },
+                _ => true,
+            })
+        }
+    }
+}
+
+fn key_ok(k: &[u8; 32], d: &D) -> bool {
+    match d {
+        D::One(_, _, a) => a.key == *k,
+        D::Wrap(d) => key_ok(k, d),
+        _ => true,
+    }
+}
+
+fn oracle_accepts(set: &Set, accs: &[Acc]) -> bool {
+    let mut rest = accs;
+    match dec(set, &mut rest) {
+        Some(d) => all_ok(&d),
+        None => false,
+    }
+}
+
+// ---------------------------------------------------------------- execution
+struct Run<'a> {
+    rec: Recorder,
+    nests: &'a [Nest],
+}
+
+impl Run<'_> {
+    fn exec_nest(&mut self, n: &Nest, accs: &[Acc]) -> String {
+        let line = format!("nest {} {}{}", hex(PROGRAM_ID.as_ref()), n.rendered, accs.iter().map(|a| format!(" {}", a.tok())).collect::<String>());
+        let specs: Vec<AcctSpec> = accs
+            .iter()
+            .map(|a| AcctSpec::new(Pubkey::new_from_array(a.key), Pubkey::new_from_array(a.owner)).signer(a.signer).writable(a.writable).data(a.data.clone()).lamports(1_000_000))
+            .collect();
+        let world = World::new(&specs);
+        let ans = (n.run)(world.infos());
+        self.rec.op(&line, &ans);
+        self.rec.bump(&format!("ans:{ans}"));
+        let want = oracle_accepts(&n.spec, accs);
+        if ans == "panic" {
+            // the only panic the nests can reach is the known `Init` slice panic on data shorter than the discriminant (D12b, C12)
+            let init_short = n.rendered.contains("init");
+            if !init_short {
+                self.rec.fail("nest_panics", &line);
+            }
+        } else if (ans == "ok") != want {
+            self.rec.fail(if want { "nest_rejects_valid_accounts" } else { "nest_accepts_invalid_accounts" }, &format!("{line} -> {ans}, oracle accepts={want}"));
+        }
+        ans
+    }
+    fn exec_meta(&mut self, n: &Nest) {
+        let Some(m) = n.meta else { return };
+        let line = format!("meta {}", n.rendered);
+        let ans = m();
+        self.rec.op(&line, &ans);
+        // advertised flags, recomputed in plain Rust from the layer list
+        if let Set::Chain(ls, _) = &n.spec {
+            let s = ls.iter().any(|l| matches!(l, L::Signer | L::AdvS));
+            let w = ls.iter().any(|l| matches!(l, L::Mut | L::AdvW | L::Init | L::InitNf));
+            if ans != format!("{}{}", s as u8, w as u8) {
+                self.rec.fail("advertised_meta_wrong", &format!("{line} -> {ans}"));
             }
         }
     }
-    None
+    fn exec_eq(&mut self, a: [u8; 32], b: [u8; 32]) {
+        let line = format!("eq {} {}", hex(&a), hex(&b));
+        let got = fast_32_byte_eq(&a, &b);
+        self.rec.op(&line, if got { "1" } else { "0" });
+        if got != (a == b) {
+            self.rec.fail("fast_eq_differs_from_byte_eq", &line);
+        }
+    }
+    fn replay_line(&mut self, l: &str) {
+        let t: Vec<&str> = l.split(' ').filter(|x| !x.is_empty()).collect();
+        let nests = self.nests;
+        match t.as_slice() {
+            ["nest", pid, set, accs @ ..] => {
+                let accs: Option<Vec<Acc>> = accs.iter().map(|a| Acc::parse(a)).collect();
+                match (nests.iter().find(|n| n.rendered == *set), accs, *pid == hex(PROGRAM_ID.as_ref())) {
+                    (Some(n), Some(accs), true) => {
+                        self.exec_nest(n, &accs);
+                    }
+                    _ => self.rec.op(l, "bad-op"),
+                }
+            }
+            ["meta", chain] => match nests.iter().find(|n| n.rendered == *chain && n.meta.is_some()) {
+                Some(n) => self.exec_meta(n),
+                None => self.rec.op(l, "bad-op"),
+            },
+            ["eq", a, b] => {
+                let p = |s: &str| unhex(s).and_then(|v| <[u8; 32]>::try_from(v).ok());
+                match (p(a), p(b)) {
+                    (Some(a), Some(b)) => self.exec_eq(a, b),
+                    _ => self.rec.op(l, "bad-op"),
+                }
+            }
+            _ => self.rec.op(l, "bad-op"),
+        }
+    }
 }
 
 /// Keys derived from `base` that differ from it in ways a *folded* comparison could cancel:
@@ -206,197 +511,180 @@ fn adversarial_variants(base: [u8; 32], rng: &mut Rng) -> Vec<[u8; 32]> {
     out
 }
 
-// ---------------------------------------------------------------- independent oracle (plain Rust)
-fn oracle_accepts(nest: &str, present: bool, signer: bool, writable: bool, key: &[u8; 32], owner: &[u8; 32]) -> Option<bool> {
-    let layers: Vec<&str> = nest.split(',').collect();
-    if !present {
-        return Some(layers[0] == "opt");
-    }
-    let mut ok = true;
-    for l in layers {
-        ok &= match l {
-            "opt" | "nsigner" | "nmut" | "info" | "advw" | "advs" => true,
-            "signer" => signer,
-            "mut" => writable,
-            "sysacct" => owner == &[0u8; 32],
-            _ => {
-                let (_, h) = l.split_once(':')?;
-                let want: [u8; 32] = unhex(h)?.try_into().ok()?;
-                key.iter().zip(want.iter()).all(|(x, y)| x == y)
-            }
-        };
-    }
-    Some(ok)
-}
-
-fn exec_val(rec: &mut Recorder, table: &[(String, Runner)], nest: &str, present: bool, signer: bool, writable: bool, key: [u8; 32], owner: [u8; 32]) {
-    let line = format!("val {nest} {} {} {} {} {}", present as u8, signer as u8, writable as u8, hex(&key), hex(&owner));
-    let Some((_, runner)) = table.iter().find(|(n, _)| n == nest) else {
-        rec.op(&line, "bad-op");
-        return;
-    };
-    // An absent optional account is encoded as the program id (or as no account at all).
-    let specs: Vec<AcctSpec> = if present {
-        vec![AcctSpec::new(Pubkey::new_from_array(key), Pubkey::new_from_array(owner)).signer(signer).writable(writable)]
-    } else if signer || !nest.starts_with("opt") {
-        vec![] // no accounts left: the second encoding of "absent" for optional accounts, an error otherwise
-    } else {
-        vec![AcctSpec::new(PROGRAM_ID, Pubkey::new_from_array(owner)).writable(writable)]
-    };
-    let world = World::new(&specs);
-    let ans = match hx_common::catch(|| runner(world.infos())) {
-        Ok(a) => a,
-        Err(_) => "panic".to_string(),
-    };
-    rec.op(&line, &ans);
-    rec.bump(&format!("ans:{ans}"));
-    match oracle_accepts(nest, present, signer, writable, &key, &owner) {
-        Some(want) => {
-            let got = ans == "ok";
-            if got != want || ans == "panic" {
-                rec.fail(
-                    if want { "modifier_rejects_valid_account" } else { "modifier_accepts_invalid_account" },
-                    &format!("{line} -> {ans}, oracle accepts={want}"),
-                );
-            }
-        }
-        None => {}
-    }
-}
-
-fn exec_eq(rec: &mut Recorder, a: [u8; 32], b: [u8; 32]) {
-    let line = format!("eq {} {}", hex(&a), hex(&b));
-    let got = fast_32_byte_eq(&a, &b);
-    rec.op(&line, if got { "1" } else { "0" });
-    if got != (a == b) {
-        rec.fail("fast_eq_differs_from_byte_eq", &line);
-    }
-}
-
-fn parse32(s: &str) -> Option<[u8; 32]> {
-    unhex(s)?.try_into().ok()
-}
-
-fn replay_line(rec: &mut Recorder, table: &[(String, Runner)], l: &str) {
-    let t: Vec<&str> = l.split(' ').collect();
-    match t.as_slice() {
-        ["val", nest, p, s, w, key, owner] => {
-            let (Some(key), Some(owner)) = (parse32(key), parse32(owner)) else { return rec.op(l, "bad-op") };
-            let b = |x: &str| x == "1";
-            if ![p, s, w].iter().all(|x| **x == "0" || **x == "1") {
-                return rec.op(l, "bad-op");
-            }
-            exec_val(rec, table, nest, b(p), b(s), b(w), key, owner);
-        }
-        ["eq", a, b] => {
-            let (Some(a), Some(b)) = (parse32(a), parse32(b)) else { return rec.op(l, "bad-op") };
-            exec_eq(rec, a, b);
-        }
-        _ => rec.op(l, "bad-op"),
-    }
+fn flip(k: &[u8; 32], bit: usize) -> [u8; 32] {
+    let mut o = *k;
+    o[bit / 8] ^= 1 << (bit % 8);
+    o
 }
 
 pub fn run(args: &Args) {
+    install_hooks();
     let table = nests();
-    let mut rec = Recorder::new(
-        "one case per nesting (43 modifier nestings up to depth 5, see c09.rs) x flag combinations x key/owner perturbations \
-         (exact, every single-bit flip, every single-byte replacement, random, and multi-word differences that a folded comparison would cancel: equal xor masks in several words, +m/-m in two words, swapped words, reversed bytes); plus direct fast_32_byte_eq pairs. \
-         A case is non-trivial when it contains at least one accepted and one rejected account; distinct by case text hash.",
-    );
+    let mut r = Run {
+        rec: Recorder::new(
+            "one case per nest type (hand-picked nests of nests.txt + Init/Seeded nests + random nests of the layer grammar generated by build.rs, each a real Rust type): \
+             the all-good accounts, then one perturbation at a time per account (signer / writable off, key and owner single-bit flips, adversarial multi-word key / owner \
+             differences, foreign / System owner, discriminant deviations, short / zeroed / oversize data, Option placeholder), missing and extra accounts, Rest of 0..3 elements, \
+             random flag / key mixes; the advertised SingleSetMeta of every chain; direct fast_32_byte_eq pairs. A case is non-trivial when it contains at least one accepted and \
+             one rejected account list; distinct by case text hash.",
+        ),
+        nests: &table,
+    };
     if let Some(cases) = args.replay_cases() {
         for c in cases {
-            rec.case(&c[0]);
+            r.rec.case(&c[0]);
             for l in &c[1..] {
-                replay_line(&mut rec, &table, l);
+                r.replay_line(l);
             }
-            rec.mark_nontrivial();
+            r.rec.mark_nontrivial();
         }
-        rec.finish(args);
+        r.rec.finish(args);
         return;
     }
     let mut rng = Rng::new(args.seed);
     let thorough = args.thorough();
-    let sys = [0u8; 32];
-    for (ci, (nest, _)) in table.iter().enumerate() {
-        rec.case(&format!("case {ci} nest {nest}"));
-        let want_key = expected_key(nest).unwrap_or_else(|| key_from(1000 + ci as u64).to_bytes());
-        let other_owner = key_from(77).to_bytes();
-        let before = (rec.distribution.get("ans:ok").copied().unwrap_or(0), rec.evaluations);
-        // all flag combinations x {exact key, random key} x {system owner, other owner}
-        for bits in 0..8u8 {
-            let (present, signer, writable) = (bits & 4 != 0, bits & 2 != 0, bits & 1 != 0);
-            for key in [want_key, key_from(rng.next()).to_bytes()] {
-                for owner in [sys, other_owner] {
-                    exec_val(&mut rec, &table, nest, present, signer, writable, key, owner);
+    let mut ci = 0;
+    for c in crate::corpus_cases("C09") {
+        ci += 1;
+        r.rec.case(&format!("case {ci} corpus {}", c[0].trim_start_matches("case").trim()));
+        for l in &c[1..] {
+            r.replay_line(l);
+        }
+        r.rec.mark_nontrivial();
+    }
+    let pid = PROGRAM_ID.to_bytes();
+    for n in table.iter().filter(|n| thorough || !n.random || n.spec.depth() <= 4) {
+        ci += 1;
+        r.rec.case(&format!("case {ci} nest {}{}", n.spec.show(), if n.random { " (random)" } else { "" }));
+        r.rec.bump(&format!("depth:{}", n.spec.depth()));
+        r.rec.bump(if n.random { "nests:random" } else { "nests:hand" });
+        let before_ok = r.rec.distribution.get("ans:ok").copied().unwrap_or(0);
+        r.exec_meta(n);
+        for rest_n in if n.spec.has_rest() { vec![2usize, 0, 1, 3] } else { vec![2] } {
+            let mut base = vec![];
+            good(&n.spec, None, rest_n, &mut rng, &mut base);
+            r.exec_nest(n, &base);
+            if rest_n != 2 {
+                continue;
+            }
+            // one perturbation at a time
+            for i in 0..base.len() {
+                let mut variants: Vec<Acc> = vec![];
+                let a = &base[i];
+                let mut push = |f: &dyn Fn(&mut Acc)| {
+                    let mut x = a.clone();
+                    f(&mut x);
+                    variants.push(x);
+                };
+                push(&|x| x.signer = false);
+                push(&|x| x.writable = false);
+                push(&|x| {
+                    x.signer = false;
+                    x.writable = false
+                });
+                let mut bits: Vec<usize> = vec![0, 7, 63, 64, 127, 128, 191, 192, 255];
+                bits.extend((0..if thorough { 64 } else { 6 }).map(|_| rng.below(256) as usize));
+                for b in bits {
+                    push(&|x| x.key = flip(&x.key, b));
+                    push(&|x| x.owner = flip(&x.owner, b));
+                }
+                let (rk, ro) = (key_from(rng.next()).to_bytes(), key_from(rng.next()).to_bytes());
+                push(&|x| x.key = rk);
+                push(&|x| x.key = pid); // the Option placeholder
+                push(&|x| x.owner = ro);
+                push(&|x| x.owner = [0; 32]);
+                push(&|x| x.owner = pid);
+                if !a.data.is_empty() {
+                    let w = a.data.len();
+                    push(&|x| x.data[0] ^= 0x80);
+                    push(&|x| x.data[w.min(8).min(w - 1).saturating_sub(if w > 8 { 1 } else { 2 })] ^= 0x01);
+                    push(&|x| x.data.clear());
+                    push(&|x| x.data.truncate(1));
+                    push(&|x| x.data.iter_mut().for_each(|b| *b = 0));
+                    push(&|x| x.data.iter_mut().for_each(|b| *b = 0xFF));
+                    push(&|x| x.data.push(0x55));
+                    push(&|x| {
+                        x.data.pop();
+                    });
+                    push(&|x| {
+                        x.data.pop();
+                        x.data.pop();
+                        x.data.pop();
+                    });
+                } else {
+                    push(&|x| x.data = vec![1, 2, 3]);
+                }
+                if i == 0 || thorough {
+                    // differences a folded / word-wise comparison could cancel
+                    for k in adversarial_variants(a.key, &mut rng) {
+                        push(&|x| x.key = k);
+                    }
+                    for o in adversarial_variants(a.owner, &mut rng) {
+                        push(&|x| x.owner = o);
+                    }
+                }
+                for v in variants {
+                    let mut accs = base.clone();
+                    accs[i] = v;
+                    r.exec_nest(n, &accs);
                 }
             }
-        }
-        // every single-bit flip of the key and of the owner, with all flags granted
-        for bit in 0..256usize {
-            let mut key = want_key;
-            key[bit / 8] ^= 1 << (bit % 8);
-            exec_val(&mut rec, &table, nest, true, true, true, key, sys);
-            let mut owner = sys;
-            owner[bit / 8] ^= 1 << (bit % 8);
-            exec_val(&mut rec, &table, nest, true, true, true, want_key, owner);
-        }
-        // every single-byte replacement (random byte; all 255 in thorough)
-        for pos in 0..32usize {
-            let reps: Vec<u8> = if thorough { (1..=255u8).collect() } else { vec![(rng.below(255) + 1) as u8] };
-            for d in reps {
-                let mut key = want_key;
-                key[pos] = key[pos].wrapping_add(d);
-                exec_val(&mut rec, &table, nest, true, true, true, key, sys);
-                let mut owner = sys;
-                owner[pos] = owner[pos].wrapping_add(d);
-                exec_val(&mut rec, &table, nest, true, rng.chance(1, 2), rng.chance(1, 2), want_key, owner);
+            // missing / extra accounts
+            for k in 1..=base.len().min(3) {
+                r.exec_nest(n, &base[..base.len() - k]);
+            }
+            let mut extra = base.clone();
+            extra.push(Acc { key: key_from(rng.next()).to_bytes(), owner: [0; 32], signer: false, writable: false, data: vec![] });
+            r.exec_nest(n, &extra);
+            // random flag / key mixes
+            for _ in 0..if thorough { 200 } else { 30 } {
+                let mut accs = base.clone();
+                for a in accs.iter_mut() {
+                    if rng.chance(1, 3) {
+                        a.signer = rng.chance(1, 2);
+                    }
+                    if rng.chance(1, 3) {
+                        a.writable = rng.chance(1, 2);
+                    }
+                    if rng.chance(1, 8) {
+                        a.key = if rng.chance(1, 2) { pid } else { flip(&a.key, rng.below(256) as usize) };
+                    }
+                    if rng.chance(1, 8) {
+                        a.owner = if rng.chance(1, 2) { [0; 32] } else { flip(&a.owner, rng.below(256) as usize) };
+                    }
+                }
+                r.exec_nest(n, &accs);
             }
         }
-        // differences a folded / word-wise comparison could cancel
-        for key in adversarial_variants(want_key, &mut rng) {
-            exec_val(&mut rec, &table, nest, true, true, true, key, sys);
+        if r.rec.distribution.get("ans:ok").copied().unwrap_or(0) > before_ok {
+            r.rec.mark_nontrivial();
         }
-        for owner in adversarial_variants(sys, &mut rng) {
-            exec_val(&mut rec, &table, nest, true, true, true, want_key, owner);
-        }
-        let oks = rec.distribution.get("ans:ok").copied().unwrap_or(0) - before.0;
-        let _ = before.1;
-        if oks > 0 {
-            rec.mark_nontrivial();
-        }
-        rec.sample_current(0);
+        r.rec.sample_current(0);
     }
-    // direct comparisons: equal, single-bit, single-byte, word-k-only differences, random
-    rec.case("case eq fast_32_byte_eq");
+    // direct comparisons: equal, single-bit, single-byte, word-k-only differences, random, adversarial
+    r.rec.case("case eq fast_32_byte_eq");
     let n_rand = if thorough { 20000 } else { 500 };
     for i in 0..n_rand {
         let a = key_from(rng.next()).to_bytes();
-        exec_eq(&mut rec, a, a);
+        r.exec_eq(a, a);
         let b = key_from(rng.next()).to_bytes();
-        exec_eq(&mut rec, a, b);
-        let mut c = a;
-        let bit = (i % 256) as usize;
-        c[bit / 8] ^= 1 << (bit % 8);
-        exec_eq(&mut rec, a, c);
+        r.exec_eq(a, b);
+        r.exec_eq(a, flip(&a, (i % 256) as usize));
         let mut d = a;
         let word = (i % 4) as usize;
         for x in &mut d[word * 8..word * 8 + 8] {
             *x = x.wrapping_add((rng.below(255) + 1) as u8);
         }
-        exec_eq(&mut rec, a, d);
-        exec_eq(&mut rec, d, a);
+        r.exec_eq(a, d);
+        r.exec_eq(d, a);
         if i % 10 == 0 {
             for v in adversarial_variants(a, &mut rng) {
-                exec_eq(&mut rec, a, v);
-                exec_eq(&mut rec, v, a);
+                r.exec_eq(a, v);
+                r.exec_eq(v, a);
             }
         }
     }
-    rec.mark_nontrivial();
-    rec.samples.push(serde_json_sample(&table));
-    rec.finish(args);
-}
-
-fn serde_json_sample(table: &[(String, Runner)]) -> hx_common::Value {
-    hx_common::json!({"nestings": table.iter().map(|(n, _)| n.clone()).collect::<Vec<_>>()})
+    r.rec.mark_nontrivial();
+    r.rec.samples.push(hx_common::json!({"nests": table.iter().map(|n| n.spec.show()).collect::<Vec<_>>()}));
+    r.rec.finish(args);
 }
